@@ -586,6 +586,11 @@ def nzs_rules(chk):
     te_ = [e for e in r_.I.events if e.kind in ("type-error", "index-error")]
     chk.ob("R-NZS-SIB", c + ":c_h_factor(one float period){types}", "no ill-typed operation or index past the end on the way", not te_,
            derived="; ".join("%s %s" % (e.loc, e.what) for e in te_[:2]) or "none", loc=te_[0].loc if te_ else ch.loc(), inconclusive=deco and bool(te_))
+    # whole-second periods held as integers: the factors are real numbers, the buffer they are stored in must not inherit the integer dtype
+    no_truncation(chk, "R-NZS-SIB", DS + "c_h_factor", lambda I, st, fi: dict(period=AV(kind=K_ARRAY, dtype="int", shape=(LinExpr("P"),), sign=S_NONNEG,
+                                                                                        origin=frozenset(["p:period"]), tags=frozenset(["p:period"])),
+                                                                              site_class=const_av("C")),
+                  c + ":c_h_factor(integer-typed periods)", what="integer-typed periods")
     T2 = Poly.atom("T") * Poly.atom("T")
     ren = lambda a: re.sub(r"\b(tt|period)\b", "T", a)
     for cls in sorted(set(tch) & set(tsd)):
